@@ -18,7 +18,8 @@
 (***************************************************************************)
 EXTENDS Integers, Sequences, FiniteSets, TLC
 
-CONSTANTS ElHas(_, _), ElGet(_, _), ElPut(_, _, _), ElDel(_, _), ElIdx(_),
+CONSTANTS ProtoIdx,     \* indices at which the prototype chain (Object.prototype) has the writable data property "P"
+          ElHas(_, _), ElGet(_, _), ElPut(_, _, _), ElDel(_, _), ElIdx(_),
           EmptyObj(_, _),       \* (isArray, length) |-> fresh extensible object with an empty store
           FastLen(_, _),        \* boa: Array::set_length(o, n) writes the length slot directly
           FastDefine(_),        \* boa: array_exotic_define_own_property template-shape shortcut
@@ -38,12 +39,12 @@ SameValueZero(a, b) == a = b \/ {a, b} = {"i0", "-0"}
 \* 7.1.17 ToString
 ToStr(v) == CASE v = "i0" -> "0" [] v = "i1" -> "1" [] v = "i2" -> "2" [] v = "i10" -> "10"
               [] v = "f1.5" -> "1.5" [] v = "-0" -> "0" [] v = "NaN" -> "NaN"
-              [] v = "sa" -> "a" [] v = "sg" -> "g" [] v = "obj" -> "[object Object]"
+              [] v = "sa" -> "a" [] v = "sg" -> "g" [] v = "obj" -> "[object Object]" [] v = "P" -> "P"
               [] v = "u" -> "undefined" [] OTHER -> "?"
-\* rank of ToString(v) in code-unit order: "0" < "1" < "1.5" < "10" < "2" < "NaN" < "[object Object]" < "a" < "g";
+\* rank of ToString(v) in code-unit order: "0" < "1" < "1.5" < "10" < "2" < "NaN" < "P" < "[object Object]" < "a" < "g";
 \* 23.1.3.30.2 CompareArrayElements puts undefined last
 Rank(v) == CASE v \in {"i0", "-0"} -> 0 [] v = "i1" -> 1 [] v = "f1.5" -> 2 [] v = "i10" -> 3 [] v = "i2" -> 4
-             [] v = "NaN" -> 5 [] v = "obj" -> 6 [] v = "sa" -> 7 [] v = "sg" -> 8 [] OTHER -> 99
+             [] v = "NaN" -> 5 [] v = "P" -> 6 [] v = "obj" -> 7 [] v = "sa" -> 8 [] v = "sg" -> 9 [] OTHER -> 99
 
 ----------------------------------------------------------------------------
 (* Property descriptors.  Full: t = "d" (data: v,w) | "a" (accessor: g,s).  *)
@@ -124,7 +125,8 @@ ArraySetLength(o, hasV, n, hasW, w) ==
        IN IF t.stop >= 0 THEN R([t.o EXCEPT !.len = t.stop + 1, !.lenW = newWritable], FALSE)
           ELSE R([t.o EXCEPT !.lenW = newWritable], TRUE)
 
-\* 10.1.9.2 OrdinarySetWithOwnDescriptor, Receiver = O, no index properties on the prototype chain
+\* 10.1.9.2 OrdinarySetWithOwnDescriptor, Receiver = O; an inherited index property (ProtoIdx) is a writable data
+\* property, so the store creates an own data property on the receiver exactly as if nothing were inherited
 SetP(o, i, v) ==
   IF ElHas(o, i) THEN
        LET d == ElGet(o, i) IN
@@ -155,14 +157,14 @@ Throw(st, e) == IF Ok(st) THEN [st EXCEPT !.err = e] ELSE st
 \* Get(O, i) incl. getter side effect (10.1.8.1 OrdinaryGet)
 GetS(st, i) ==
   IF ~Ok(st) THEN st
-  ELSE IF ~ElHas(st.o, i) THEN [st EXCEPT !.v = "u"]
+  ELSE IF ~ElHas(st.o, i) THEN [st EXCEPT !.v = IF i \in ProtoIdx THEN "P" ELSE "u"]     \* OrdinaryGet step 2: the prototype
   ELSE LET d == ElGet(st.o, i) IN
        IF d.t = "d" THEN [st EXCEPT !.v = d.v]
        ELSE IF d.g = "" THEN [st EXCEPT !.v = "u"]
        ELSE IF d.g = "k" THEN [st EXCEPT !.v = "sg"]
        ELSE IF st.o.len < GetterCap THEN [st EXCEPT !.o = SetP(st.o, st.o.len, "i1").o, !.v = "sg"]
        ELSE [st EXCEPT !.v = "sg"]
-HasS(st, i) == ElHas(st.o, i)                       \* HasProperty(O, i)
+HasS(st, i) == ElHas(st.o, i) \/ i \in ProtoIdx     \* HasProperty(O, i): own or inherited
 SetT(st, i, v) == IF ~Ok(st) THEN st ELSE           \* Set(O, i, v, true)
   LET r == SetP(st.o, i, v) IN [st EXCEPT !.o = r.o, !.err = IF r.b THEN "" ELSE "TypeError"]
 DelT(st, i) == IF ~Ok(st) THEN st ELSE              \* DeletePropertyOrThrow(O, i)
@@ -335,16 +337,18 @@ ConcatSelf(st, k, len, n) ==
   IF k >= len \/ ~Ok(st) THEN st
   ELSE IF HasS(st, k) THEN LET g == GetS(st, k) IN ConcatSelf(CreateA(g, n, g.v), k + 1, len, n + 1)
   ELSE ConcatSelf(st, k + 1, len, n + 1)
-RECURSIVE ConcatList(_, _, _)
-ConcatList(st, els, n) ==
+\* an argument array written as a literal: element k of it is at index k, where a hole shows an inherited property
+RECURSIVE ConcatList(_, _, _, _)
+ConcatList(st, els, n, k) ==
   IF els = <<>> THEN st
-  ELSE ConcatList(IF Head(els) = "hole" THEN st ELSE CreateA(st, n, Head(els)), Tail(els), n + 1)
+  ELSE ConcatList(IF Head(els) = "hole" THEN (IF k \in ProtoIdx THEN CreateA(st, n, "P") ELSE st)
+                  ELSE CreateA(st, n, Head(els)), Tail(els), n + 1, k + 1)
 RECURSIVE ConcatItems(_, _, _)
 ConcatItems(st, items, n) ==
   IF items = <<>> \/ ~Ok(st) THEN [st |-> st, n |-> n]
   ELSE LET it == Head(items) IN
        IF it.t = "v" THEN ConcatItems(CreateA(st, n, it.v), Tail(items), n + 1)
-       ELSE ConcatItems(ConcatList(st, it.els, n), Tail(items), n + Len(it.els))
+       ELSE ConcatItems(ConcatList(st, it.els, n, 0), Tail(items), n + Len(it.els))
 Concat(st0, items) ==
   LET s0 == NewA(st0, 0)
       \* IsConcatSpreadable(O): an Array (or a Proxy for one) is spread, a plain array-like is one element
@@ -507,7 +511,7 @@ ArrayFrom(st0) ==
 RECURSIVE ValuesLoop(_, _)
 ValuesLoop(st, ix) ==
   IF ix = <<>> \/ ~Ok(st) THEN st
-  ELSE IF HasS(st, Head(ix)) /\ ElGet(st.o, Head(ix)).e
+  ELSE IF ElHas(st.o, Head(ix)) /\ ElGet(st.o, Head(ix)).e
        THEN LET g == GetS(st, Head(ix)) IN ValuesLoop([g EXCEPT !.l = Append(g.l, g.v)], Tail(ix))
        ELSE ValuesLoop(st, Tail(ix))
 ObjectValues(st0) ==
